@@ -145,26 +145,27 @@ type LockCall struct {
 
 // Result is what a run produced; all oracles are functions of it.
 type Result struct {
-	Plan          *Plan
-	Responses     []*Response // by op index (nil = never spawned)
-	Events        []Event
-	Publications  []Publication
-	Store         *ModelStore
-	LockCalls     []*LockCall
-	Steps         int
-	Generations   int
-	BudgetHit     bool
-	Stuck         []int // ops that were spawned, never answered, in a generation that was alive at the end
-	ClockMoved    bool
-	HarnessErr    string
-	SpawnStep     []int
-	SpawnGen      []int
-	CrashSteps    []int
-	RevertTargets map[int]int64 // per revert request: the transaction id it actually named
-	Faults        int
-	ReadFaults    int
-	Closes        int
-	Cancels       int
+	Plan           *Plan
+	Responses      []*Response // by op index (nil = never spawned)
+	Events         []Event
+	Publications   []Publication
+	Store          *ModelStore
+	LockCalls      []*LockCall
+	Steps          int
+	Generations    int
+	BudgetHit      bool
+	Stuck          []int // ops that were spawned, never answered, in a generation that was alive at the end
+	ClockMoved     bool
+	HarnessErr     string
+	SpawnStep      []int
+	SpawnGen       []int
+	CrashSteps     []int
+	RevertTargets  map[int]int64 // per revert request: the transaction id it actually named
+	Faults         int
+	CancelledWaits int // waits for persistence that were entered by a request whose caller had gone away
+	ReadFaults     int
+	Closes         int
+	Cancels        int
 	// LeakedWorkers counts generations whose batch worker could not be stopped because the
 	// runner loop had died by a panic that was not a store failure.
 	LeakedWorkers int
@@ -245,8 +246,32 @@ func (ci *clientInfo) Yield(ctx context.Context, point string) {
 	ci.sim.gate(ci, point, nil)
 }
 
+// Await parks the request until the channel it is about to wait on is closed -- or until its caller has
+// gone away: code that waits with `select { case <-ch: case <-ctx.Done(): }` moves on then, code that
+// waits with a bare `<-ch` just blocks there a little later.
 func (ci *clientInfo) Await(ctx context.Context, point string, ch <-chan struct{}) {
-	ci.sim.gate(ci, point, ch)
+	ready := func() bool {
+		select {
+		case <-ch:
+			return true
+		case <-ctx.Done():
+			return true
+		default:
+			return false
+		}
+	}
+	ci.sim.gateCond(ci, point, ready)
+	select {
+	case <-ch:
+	default:
+		// released by the cancellation: if the channel never closes (a crash swallowed the batch), the
+		// goroutine stays blocked on it for good; the history is judged all the same
+		ci.sim.mu.Lock()
+		if ci.sim.res != nil {
+			ci.sim.res.CancelledWaits++
+		}
+		ci.sim.mu.Unlock()
+	}
 }
 
 func (ci *clientInfo) BeforeLock(ctx context.Context, name string, mu *sync.Mutex) {
@@ -706,7 +731,7 @@ func Run(t *testing.T, plan *Plan) (res *Result) {
 		if p := recover(); p != nil {
 			msg := fmt.Sprint(p)
 			if strings.Contains(msg, "deadlock: main bubble goroutine has exited") {
-				if res.LeakedWorkers > 0 || res.Closes > 0 {
+				if res.LeakedWorkers > 0 || res.Closes > 0 || res.CancelledWaits > 0 {
 					// expected: see LeakedWorkers; after a graceful Close a request that still reaches the
 					// batcher blocks for ever in Runner.Next (nobody reads newJobsAvailable any more) -- the
 					// process exits in real life, here the goroutine is left behind
